@@ -136,7 +136,7 @@ where G: GraphRef + IntoEdgeReferences + NodeCompactIndexable {
 }
 
 pub fn query_dir2<G>(g: G, q: &GOp) -> Option<Vec<String>>
-where G: GraphRef + IntoNeighborsDirected + IntoNodeIdentifiers + Visitable + NodeIndexable {
+where G: GraphRef + IntoNeighborsDirected + IntoNodeIdentifiers + Visitable + NodeIndexable, <G as Visitable>::Map: Default {
     let topo = |r: Result<Vec<G::NodeId>, algo::Cycle<G::NodeId>>| match r {
         Ok(l) => line("seq", &l.iter().map(|x| g.to_index(*x) as i64).collect::<Vec<_>>()),
         Err(c) => line("cycle", &[g.to_index(c.node_id()) as i64]),
@@ -145,6 +145,9 @@ where G: GraphRef + IntoNeighborsDirected + IntoNodeIdentifiers + Visitable + No
         "toposort" => vec![topo(algo::toposort(g, None))],
         "toposort2" => { let mut sp = DfsSpace::new(g); let a = topo(algo::toposort(g, Some(&mut sp))); let b = topo(algo::toposort(g, Some(&mut sp))); vec![a, b] }
         "kosaraju" => comps(g, &algo::kosaraju_scc(g)),
+        // a workspace that was NOT created from this graph: reset_map has to size it
+        "toposort3" => { let mut sp: DfsSpace<G::NodeId, G::Map> = DfsSpace::default(); vec![topo(algo::toposort(g, Some(&mut sp)))] }
+        "has_path3" => { let mut sp: DfsSpace<G::NodeId, G::Map> = DfsSpace::default(); vec![line("bool", &[algo::has_path_connecting(g, g.from_index(q.1[0] as usize), g.from_index(q.1[1] as usize), Some(&mut sp)) as i64])] }
         _ => return None,
     })
 }
@@ -173,6 +176,8 @@ fn gen_queries(stream: &str, r: &mut Rng, ids: &[usize], bound: usize, directed_
         if directed_traits {
             qs.push((if r.chance(50) { "toposort" } else { "toposort2" }.into(), vec![]));
             qs.push(("kosaraju".into(), vec![]));
+            qs.push(("toposort3".into(), vec![]));
+            if !ids.is_empty() { qs.push(("has_path3".into(), vec![pick(r), pick(r)])); }
         }
         if !ids.is_empty() {
             for _ in 0..2 + r.below(3) { qs.push(("has_path".into(), vec![pick(r), pick(r)])); }
